@@ -21,14 +21,19 @@ Variables (Phi : V -> smx F) (D : nat -> V -> smx F).
 Hypothesis FF : faulty_functional um Phi D.        (* the trait contract *)
 Hypothesis shape : forall a, wf n m (Phi a).       (* evaluations are N x M *)
 
-(* cache = (coefficients, residual matrix) *)
-Definition num_cache : Type := (smx F * smx F)%type.
+(* cache = (coefficients, residual matrix, the basis matrix they were computed from — the code keeps its SVD) *)
+Definition num_cache : Type := (smx F * smx F * smx F)%type.
 
 (* mod.rs set_params, numeric content: Phi_w = W Phi; C = argmin || Y_w - Phi_w C ||; R = Y_w - Phi_w C.
    None: the weighted basis matrix has no full column rank (this exact specification covers the full-rank case;
    the truncated solve is Proofs/MinNormP.v) *)
 Definition num_solve (w : option (seq F)) (e : unit) (P Yw : smx F) : option num_cache :=
-  if slsq n m (wscale w P) Yw is Some C then Some (C, ssub Yw (smul n (wscale w P) C)) else None.
+  if slsq n m (wscale w P) Yw is Some C then Some (C, ssub Yw (smul n (wscale w P) C), P) else None.
+
+(* mod.rs jacobian, numeric content of one column: -(I - P) W D_k C, stacked; None never occurs on a cached state
+   (num_jaccol_total) *)
+Definition num_jaccol (w : option (seq F)) (c : num_cache) (Dk : smx F) : option (seq F) :=
+  let '(C, _, P) := c in spec_jac_col n m w P Dk C.
 
 Definition num_problem : Type := problem (smx F) num_cache (option (seq F)) unit St.
 
@@ -36,20 +41,20 @@ Definition num_problem : Type := problem (smx F) num_cache (option (seq F)) unit
 Definition built_from (w : option (seq F)) (Y : smx F) (p : num_problem) : Prop :=
   p_w p = w /\ p_Yw p = wscale w Y.
 
-Lemma coherent_state w Y (p : num_problem) C R :
-  built_from w Y p -> coherent um num_solve Phi p -> p_cached p = Some (C, R) ->
-  spec_coeffs n m w (Phi (params um p)) Y = Some C /\
-  R = spec_resid n w (Phi (params um p)) Y C.
+Lemma coherent_state w Y (p : num_problem) C R P :
+  built_from w Y p -> coherent um num_solve Phi p -> p_cached p = Some (C, R, P) ->
+  [/\ spec_coeffs n m w (Phi (params um p)) Y = Some C,
+      R = spec_resid n w (Phi (params um p)) Y C & P = Phi (params um p)].
 Proof.
 move=> [hpw hpY] co hc; have := co _ hc.
 rewrite hpw hpY /num_solve /spec_coeffs /spec_resid.
-by case: (slsq _ _ _ _) => [C'|] // [-> ->].
+by case: (slsq _ _ _ _) => [C'|] // [-> -> ->].
 Qed.
 
 (* what a coherent state means numerically: the coefficients shown minimise the weighted residual norm of every
    right-hand side AT THE PARAMETERS THE PROBLEM REPORTS, and the residual matrix shown is W (Y - Phi C) there *)
 Definition state_correct (w : option (seq F)) (Y : smx F) (p : num_problem) : Prop :=
-  forall C R, p_cached p = Some (C, R) ->
+  forall C R P, p_cached p = Some (C, R, P) ->
     [/\ wf m s C,
         forall (j : 'I_s) (c' : 'cV[F]_m),
           nrm2 (Wm n w *m (col j (mx_of n s Y)
@@ -61,12 +66,32 @@ Definition state_correct (w : option (seq F)) (Y : smx F) (p : num_problem) : Pr
 Lemma coherent_correct w Y (p : num_problem) :
   wok n w -> wf n s Y -> built_from w Y p -> coherent um num_solve Phi p -> state_correct w Y p.
 Proof.
-move=> hw hY hb co C R hc.
-have [hC ->] := coherent_state hb co hc.
+move=> hw hY hb co C R P hc.
+have [hC -> _] := coherent_state hb co hc.
 have hwfC := spec_coeffs_wf hw (shape _) hY hC.
 split=> //.
 - by move=> j c'; apply: spec_coeffs_opt hC j c'.
 - exact: mx_of_spec_resid.
+Qed.
+
+(* whenever coefficients exist, every Jacobian column exists and is the Kaufman column *)
+Lemma num_jaccol_formula w Y P C Dk :
+  wok n w -> wf n m P -> wf n s Y -> wf n m Dk -> spec_coeffs n m w P Y = Some C ->
+  exists (jc : seq F) (M : smx F),
+    [/\ spec_jac_col n m w P Dk C = Some jc, jc = flatten M, wf n s M,
+        mx_of n s M
+        = - ((1%:M - (Wm n w *m mx_of n m P)
+                      *m invmx ((Wm n w *m mx_of n m P)^T *m (Wm n w *m mx_of n m P))
+                      *m (Wm n w *m mx_of n m P)^T)
+             *m (Wm n w *m mx_of n m Dk *m mx_of m s C))
+      & (Wm n w *m mx_of n m P)^T *m mx_of n s M = 0].
+Proof.
+move=> hw hP hY hD hC; have hwfC := spec_coeffs_wf hw hP hY hC.
+have [jc ej] : exists jc, spec_jac_col n m w P Dk C = Some jc.
+  move: hC; rewrite /spec_coeffs /slsq /spec_jac_col /proj_compl.
+  by case: (inv_cert _ _) => [X|] // _; eexists.
+have [M [e1 e2 e3 e4 _]] := spec_jac_col_mx hw hP hD hwfC ej.
+by exists jc, M; split.
 Qed.
 
 Variable jaccol : option (seq F) -> num_cache -> smx F -> Col.
@@ -109,5 +134,29 @@ have hpost := @minimize_post _ _ _ _ _ _ _ um num_solve jaccol dec Phi D FF
                 (fun _ _ _ => I) script p p' r c0 co hc0 hmin.
 case: hpost => co' [fY [_ [fw _]]].
 by apply: coherent_correct => //; split; rewrite ?fw ?fY.
+Qed.
+
+(* C03 for every history: a Jacobian that is produced consists of exactly one column per nonlinear parameter, column k
+   being the Kaufman column for the derivative matrix D_k at the parameters the problem reports and the coefficients
+   it shows *)
+Theorem jacobian_end_to_end w Y (p : num_problem) (os : list (op V)) :
+  wok n w -> wf n s Y -> built_from w Y p -> coherent um num_solve Phi p ->
+  let p' := fst (run um num_solve num_jaccol p os) in
+  forall C R P p'' cols,
+    p_cached p' = Some (C, R, P) ->
+    jacobian um num_jaccol p' = (p'', Some cols) ->
+    cols = List.map (fun k => spec_jac_col n m w (Phi (params um p')) (D k (params um p')) C)
+                    (List.seq 0 (um_nparams um (p_st p')))
+    /\ spec_coeffs n m w (Phi (params um p')) Y = Some C.
+Proof.
+move=> hw hY [hpw hpY] co p' C R P p'' cols hc.
+have [fY [_ fw]] := run_frame um num_solve num_jaccol p os.
+have hb' : built_from w Y p' by split; rewrite /p' ?fw ?fY.
+have co' : coherent um num_solve Phi p' by exact: (coherent_run num_jaccol FF).
+have [hC _ eP] := coherent_state hb' co' hc.
+rewrite /Protocol.jacobian hc.
+case ej: (jac_cols _ _ _ _ _ _ _) => [st1 j] [_ ej2]; rewrite ej2 in ej.
+have := @jac_cols_spec _ _ _ _ _ _ um num_jaccol Phi D FF _ _ _ _ _ _ _ ej.
+by case: hb' => -> _ ->; rewrite /num_jaccol eP.
 Qed.
 End EndToEnd.
